@@ -503,6 +503,11 @@ pub(crate) fn stub_reclaim_all_unreachable(_p: &mut Prioritize, _s: &mut store::
 /// One queued DATA frame of symbolic size on an open stream; every window symbolic
 /// (including zero and negative stream windows after a SETTINGS shrink).
 fn pop_frame_one_data(eos: bool) {
+    pop_frame_one_data_regime(eos, false)
+}
+/// `sendable_only`: restrict to pre-states in which the frame can be (partly) sent now,
+/// i.e. no path puts it back (Deque::push_front is an unreachability stub in that query).
+fn pop_frame_one_data_regime(eos: bool, sendable_only: bool) {
     // eos => the send half was closed when the frame was queued (HalfClosedLocal)
     let mut w = world(if eos { 4 } else { 3 });
     {
@@ -520,9 +525,14 @@ fn pop_frame_one_data(eos: bool) {
         let mut frame = frame::Data::new(StreamId::from(ID), SymBuf { off, rem: sz });
         frame.set_end_stream(eos);
         p.pending_send.push_back(&mut w.buffer, frame.into());
-        push_pending_send(&mut w.prio, &mut p);
+        // scheduled (without `Queue::push`: re-scheduling is an unreachability stub here)
+        p.is_pending_send = true;
+        store_h::queue_set_single(&mut w.prio.pending_send, w.key);
     }
     let pre = sym_pre(&mut w, Some(sz));
+    if sendable_only {
+        kani::assume(sz == 0 || pre.a > 0);
+    }
     let max_len: usize = kani::any();
     kani::assume(max_len >= 16_384 && max_len < (1 << 24));
     let out = w.prio.pop_frame(&mut w.buffer, &mut w.store, max_len, &mut w.counts);
@@ -571,6 +581,8 @@ fn pop_frame_one_data(eos: bool) {
     forget(w);
 }
 pub fn c02_emit_pop_frame_data() { pop_frame_one_data(false) }
+pub fn c02_emit_pop_frame_data_sendable() { pop_frame_one_data_regime(false, true) }
+pub fn c02_emit_pop_frame_data_eos_sendable() { pop_frame_one_data_regime(true, true) }
 pub fn c02_emit_pop_frame_data_eos() { pop_frame_one_data(true) }
 
 // ---------------------------------------------------------------------------
@@ -692,6 +704,72 @@ pub fn c20_window_clear_queue_marks_drop() {
         assert!(in_flight_is_nothing(&w.prio));
     }
     kani::cover!(in_flight, "in_flight");
+    kani::cover!(true, "end");
+    forget(w);
+}
+
+// ---------------------------------------------------------------------------
+// C16.reach through the real redistribution loop (`assign_connection_capacity`), for the
+// regime in which the waiting stream can be satisfied completely (so it is not re-queued)
+// ---------------------------------------------------------------------------
+fn queue_target_for_capacity(w: &mut World) {
+    let mut p = w.store.resolve(w.key);
+    p.is_pending_send_capacity = true;
+    store_h::queue_set_single(&mut w.prio.pending_capacity, w.key);
+}
+
+/// A stream that waits in `pending_capacity` lowers its own reservation below what it
+/// holds: exactly the excess returns to the connection, the stream keeps exactly its new
+/// request and is not handed back what it just released.
+pub fn c16_reach_lower_while_queued() {
+    let mut w = world(3);
+    {
+        let mut p = w.store.resolve(w.key);
+        st_h::set_inner_open_streaming(&mut p.state);
+    }
+    queue_target_for_capacity(&mut w);
+    let pre = sym_pre(&mut w, None);
+    let cap: WindowSize = kani::any();
+    let want = cap as u64 + pre.buffered as u64;
+    kani::assume(want < pre.a as u64); // strictly below the current assignment
+    {
+        let mut p = w.store.resolve(w.key);
+        w.prio.reserve_capacity(cap, &mut p, &mut w.counts);
+    }
+    let q = post(&mut w);
+    assert_inv(&pre, &q);
+    assert!(q.req as u64 == want, "requested capacity after lowering");
+    assert!(q.a as u64 == want, "C16: a stream that lowered its reservation still holds more than it requests");
+    assert!(q.ca as i64 == pre.ca as i64 + (pre.a as i64 - want as i64), "C16.reach: released capacity did not return to the connection (it must be available to other waiters)");
+    kani::cover!(true, "end");
+    forget(w);
+}
+
+/// Connection WINDOW_UPDATE with the target waiting and enough capacity for all it wants.
+pub fn c16_reach_conn_update_satisfies_waiter() {
+    let mut w = world(3);
+    {
+        let mut p = w.store.resolve(w.key);
+        st_h::set_inner_open_streaming(&mut p.state);
+    }
+    queue_target_for_capacity(&mut w);
+    let pre = sym_pre(&mut w, None);
+    let inc: u32 = kani::any();
+    kani::assume(inc >= 1 && inc as i64 <= MAXW && pre.cw as i64 + inc as i64 <= MAXW);
+    let wanted = pre.req as i64 - pre.a as i64;
+    let room = if pre.w > 0 { pre.w as i64 - pre.a as i64 } else { 0 };
+    let give = if wanted < room { wanted } else { room };
+    kani::assume(give >= 0 && pre.ca as i64 + inc as i64 >= give); // enough for everything it can take
+    // Q1 of a queued stream that can take nothing (window exhausted) is vacuous: exclude
+    let r = w.prio.recv_connection_window_update(inc, &mut w.store, &mut w.counts);
+    assert!(r.is_ok());
+    let q = post(&mut w);
+    assert_inv(&pre, &q);
+    assert!(q.cw as i64 == pre.cw as i64 + inc as i64);
+    assert!(q.a as i64 == pre.a as i64 + give, "C16.reach: new connection capacity did not reach the waiting stream in full");
+    let p = w.store.resolve(w.key);
+    assert!(!p.is_pending_send_capacity, "satisfied stream still queued");
+    kani::cover!(give > 0, "granted");
     kani::cover!(true, "end");
     forget(w);
 }
